@@ -102,3 +102,12 @@ package checker
 //@   requires c != nil && c.cluster != nil && region != nil && region.meta != nil && rf != nil && rf.Rule != nil && c.regionWaitingList != nil
 //@   at CreateAddPeerOperator 1 assert [adds-on-the-chosen-store] arg3 != nil && arg3.StoreId == callres("SelectStoreToAdd", 1) && arg3.StoreId != 0 && arg2 == region
 //@   modifies *
+
+// fixBetterLocation: the rule checker's location improvement REPLACES (add, then remove): it moves the peer the strategy
+// judged worst to the store the strategy chose for improvement.
+//@ func (*RuleChecker).fixBetterLocation
+//@   props C10
+//@   requires c != nil && c.cluster != nil && region != nil && region.meta != nil && rf != nil && rf.Rule != nil
+//@   at CreateMovePeerOperator 1 assert [moves-the-worst-to-the-chosen-store] arg4 == callres("SelectStoreToRemove", 1) && arg4 != 0 && arg5 != nil && arg5.StoreId == callres("SelectStoreToImprove", 1) && arg5.StoreId != 0 && arg2 == region
+//@   modifies *
+
